@@ -14,111 +14,111 @@ def fn_NewBufferedWatcher : List SkOp := [
     ⟨"makeChan", "Event", ["sz"], []⟩,
     ⟨"makeChan", "error", ["0"], []⟩,
     ⟨"call", "newBackend", [], []⟩,
-    ⟨"ifBegin", "err != nil", [], []⟩,
-    ⟨"ret", "nil, err", [], []⟩,
+    ⟨"ifBegin", "%1 != nil", [], []⟩,
+    ⟨"ret", "nil, %1", [], []⟩,
     ⟨"ifEnd", "", [], []⟩,
-    ⟨"ret", "&Watcher{b: b, Events: ev, Errors: errs}, nil", [], []⟩
+    ⟨"ret", "&Watcher{b: %2, Events: %3, Errors: %4}, nil", [], []⟩
 ]
 
 def fn_NewWatcher : List SkOp := [
     ⟨"makeChan", "Event", ["defaultBufferSize"], []⟩,
     ⟨"makeChan", "error", ["0"], []⟩,
     ⟨"call", "newBackend", [], []⟩,
-    ⟨"ifBegin", "err != nil", [], []⟩,
-    ⟨"ret", "nil, err", [], []⟩,
+    ⟨"ifBegin", "%1 != nil", [], []⟩,
+    ⟨"ret", "nil, %1", [], []⟩,
     ⟨"ifEnd", "", [], []⟩,
-    ⟨"ret", "&Watcher{b: b, Events: ev, Errors: errs}, nil", [], []⟩
+    ⟨"ret", "&Watcher{b: %2, Events: %3, Errors: %4}, nil", [], []⟩
 ]
 
 def fn_inotify_Add : List SkOp := [
     ⟨"call", "AddWith", [], []⟩,
-    ⟨"ret", "w.AddWith(name)", [], []⟩
+    ⟨"ret", "%1.AddWith(%2)", [], []⟩
 ]
 
 def fn_inotify_AddWith : List SkOp := [
     ⟨"call", "isClosed", [], []⟩,
-    ⟨"ifBegin", "w.isClosed()", [], []⟩,
+    ⟨"ifBegin", "%1.isClosed()", [], []⟩,
     ⟨"ret", "ErrClosed", [], []⟩,
     ⟨"ifEnd", "", [], []⟩,
     ⟨"ifBegin", "debug", [], []⟩,
     ⟨"ifEnd", "", [], []⟩,
     ⟨"call", "getOptions", [], []⟩,
     ⟨"call", "xSupports", [], []⟩,
-    ⟨"ifBegin", "!w.xSupports(with.op)", [], []⟩,
-    ⟨"ret", "fmt.Errorf(\"%w: %s\", xErrUnsupported, with.op)", [], []⟩,
+    ⟨"ifBegin", "!%1.xSupports(%2.op)", [], []⟩,
+    ⟨"ret", "fmt.Errorf(\"%w: %s\", xErrUnsupported, %2.op)", [], []⟩,
     ⟨"ifEnd", "", [], []⟩,
     ⟨"lock", "mu", [], []⟩,
     ⟨"deferUnlock", "mu", [], ["mu"]⟩,
     ⟨"call", "isClosed", [], ["mu"]⟩,
-    ⟨"ifBegin", "w.isClosed()", [], ["mu"]⟩,
+    ⟨"ifBegin", "%1.isClosed()", [], ["mu"]⟩,
     ⟨"ret", "ErrClosed", [], ["mu"]⟩,
     ⟨"ifEnd", "", [], ["mu"]⟩,
     ⟨"call", "recursivePath", [], ["mu"]⟩,
-    ⟨"ifBegin", "recurse", [], ["mu"]⟩,
+    ⟨"ifBegin", "%3", [], ["mu"]⟩,
     ⟨"litBegin", "", [], ["mu"]⟩,
-    ⟨"ifBegin", "err != nil", [], ["mu"]⟩,
-    ⟨"ret", "err", [], ["mu"]⟩,
+    ⟨"ifBegin", "%4 != nil", [], ["mu"]⟩,
+    ⟨"ret", "%4", [], ["mu"]⟩,
     ⟨"ifEnd", "", [], ["mu"]⟩,
-    ⟨"ifBegin", "!d.IsDir()", [], ["mu"]⟩,
-    ⟨"ifBegin", "root == path", [], ["mu"]⟩,
-    ⟨"ret", "fmt.Errorf(\"fsnotify: not a directory: %q\", path)", [], ["mu"]⟩,
+    ⟨"ifBegin", "!%5.IsDir()", [], ["mu"]⟩,
+    ⟨"ifBegin", "%6 == %7", [], ["mu"]⟩,
+    ⟨"ret", "fmt.Errorf(\"fsnotify: not a directory: %q\", %7)", [], ["mu"]⟩,
     ⟨"ifEnd", "", [], ["mu"]⟩,
     ⟨"ret", "nil", [], ["mu"]⟩,
     ⟨"ifEnd", "", [], ["mu"]⟩,
-    ⟨"ifBegin", "with.sendCreate && root != path", [], ["mu"]⟩,
+    ⟨"ifBegin", "%2.sendCreate && %6 != %7", [], ["mu"]⟩,
     ⟨"call", "sendEvent", [], ["mu"]⟩,
     ⟨"ifEnd", "", [], ["mu"]⟩,
     ⟨"call", "AddWith$add", [], ["mu"]⟩,
-    ⟨"ret", "add(root, with, true)", [], ["mu"]⟩,
+    ⟨"ret", "%8(%6, %2, true)", [], ["mu"]⟩,
     ⟨"litEnd", "", [], ["mu"]⟩,
-    ⟨"ret", "filepath.WalkDir(path, func(root string, d fs.DirEntry, err error) error { if err != nil { return err } if !d.IsDir() { if root == path { return fmt.Errorf(\"fsnotify: not a directory: %q\", path) } return nil } if with.sendCreate && root != path { w.sendEvent(Event{Name: root, Op: Create}) } return add(root, with, true) })", [], ["mu"]⟩,
+    ⟨"ret", "filepath.WalkDir(%7, func(%6 string, %5 fs.DirEntry, %4 error) error { if %4 != nil { return %4 } if !%5.IsDir() { if %6 == %7 { return fmt.Errorf(\"fsnotify: not a directory: %q\", %7) } return nil } if %2.sendCreate && %6 != %7 { %1.sendEvent(Event{Name: %6, Op: Create}) } return %8(%6, %2, true) })", [], ["mu"]⟩,
     ⟨"ifEnd", "", [], ["mu"]⟩,
     ⟨"call", "AddWith$add", [], ["mu"]⟩,
-    ⟨"ret", "add(path, with, false)", [], ["mu"]⟩
+    ⟨"ret", "%8(%7, %2, false)", [], ["mu"]⟩
 ]
 
 def fn_inotify_AddWith_add : List SkOp := [
-    ⟨"ifBegin", "with.noFollow", [], []⟩,
+    ⟨"ifBegin", "%1.noFollow", [], []⟩,
     ⟨"ifEnd", "", [], []⟩,
     ⟨"call", "Has", [], []⟩,
-    ⟨"ifBegin", "with.op.Has(Create)", [], []⟩,
+    ⟨"ifBegin", "%1.op.Has(Create)", [], []⟩,
     ⟨"ifEnd", "", [], []⟩,
     ⟨"call", "Has", [], []⟩,
-    ⟨"ifBegin", "with.op.Has(Write)", [], []⟩,
+    ⟨"ifBegin", "%1.op.Has(Write)", [], []⟩,
     ⟨"ifEnd", "", [], []⟩,
     ⟨"call", "Has", [], []⟩,
-    ⟨"ifBegin", "with.op.Has(Remove)", [], []⟩,
+    ⟨"ifBegin", "%1.op.Has(Remove)", [], []⟩,
     ⟨"ifEnd", "", [], []⟩,
     ⟨"call", "Has", [], []⟩,
-    ⟨"ifBegin", "with.op.Has(Rename)", [], []⟩,
+    ⟨"ifBegin", "%1.op.Has(Rename)", [], []⟩,
     ⟨"ifEnd", "", [], []⟩,
     ⟨"call", "Has", [], []⟩,
-    ⟨"ifBegin", "with.op.Has(Chmod)", [], []⟩,
+    ⟨"ifBegin", "%1.op.Has(Chmod)", [], []⟩,
     ⟨"ifEnd", "", [], []⟩,
     ⟨"call", "Has", [], []⟩,
-    ⟨"ifBegin", "with.op.Has(xUnportableOpen)", [], []⟩,
+    ⟨"ifBegin", "%1.op.Has(xUnportableOpen)", [], []⟩,
     ⟨"ifEnd", "", [], []⟩,
     ⟨"call", "Has", [], []⟩,
-    ⟨"ifBegin", "with.op.Has(xUnportableRead)", [], []⟩,
+    ⟨"ifBegin", "%1.op.Has(xUnportableRead)", [], []⟩,
     ⟨"ifEnd", "", [], []⟩,
     ⟨"call", "Has", [], []⟩,
-    ⟨"ifBegin", "with.op.Has(xUnportableCloseWrite)", [], []⟩,
+    ⟨"ifBegin", "%1.op.Has(xUnportableCloseWrite)", [], []⟩,
     ⟨"ifEnd", "", [], []⟩,
     ⟨"call", "Has", [], []⟩,
-    ⟨"ifBegin", "with.op.Has(xUnportableCloseRead)", [], []⟩,
+    ⟨"ifBegin", "%1.op.Has(xUnportableCloseRead)", [], []⟩,
     ⟨"ifEnd", "", [], []⟩,
     ⟨"call", "register", [], []⟩,
-    ⟨"ret", "w.register(path, flags, recurse)", [], []⟩
+    ⟨"ret", "%2.register(%3, %4, %5)", [], []⟩
 ]
 
 def fn_inotify_Close : List SkOp := [
     ⟨"call", "close", [], []⟩,
-    ⟨"ifBegin", "w.shared.close()", [], []⟩,
+    ⟨"ifBegin", "%1.shared.close()", [], []⟩,
     ⟨"ret", "nil", [], []⟩,
     ⟨"ifEnd", "", [], []⟩,
     ⟨"fileOp", "Close", [], []⟩,
-    ⟨"ifBegin", "err != nil", [], []⟩,
-    ⟨"ret", "err", [], []⟩,
+    ⟨"ifBegin", "%2 != nil", [], []⟩,
+    ⟨"ret", "%2", [], []⟩,
     ⟨"ifEnd", "", [], []⟩,
     ⟨"recv", "doneResp", [], []⟩,
     ⟨"ret", "nil", [], []⟩
@@ -126,7 +126,7 @@ def fn_inotify_Close : List SkOp := [
 
 def fn_inotify_Remove : List SkOp := [
     ⟨"call", "isClosed", [], []⟩,
-    ⟨"ifBegin", "w.isClosed()", [], []⟩,
+    ⟨"ifBegin", "%1.isClosed()", [], []⟩,
     ⟨"ret", "nil", [], []⟩,
     ⟨"ifEnd", "", [], []⟩,
     ⟨"ifBegin", "debug", [], []⟩,
@@ -134,76 +134,76 @@ def fn_inotify_Remove : List SkOp := [
     ⟨"lock", "mu", [], []⟩,
     ⟨"deferUnlock", "mu", [], ["mu"]⟩,
     ⟨"call", "isClosed", [], ["mu"]⟩,
-    ⟨"ifBegin", "w.isClosed()", [], ["mu"]⟩,
+    ⟨"ifBegin", "%1.isClosed()", [], ["mu"]⟩,
     ⟨"ret", "nil", [], ["mu"]⟩,
     ⟨"ifEnd", "", [], ["mu"]⟩,
     ⟨"call", "remove", [], ["mu"]⟩,
-    ⟨"ret", "w.remove(filepath.Clean(name))", [], ["mu"]⟩
+    ⟨"ret", "%1.remove(filepath.Clean(%2))", [], ["mu"]⟩
 ]
 
 def fn_inotify_WatchList : List SkOp := [
     ⟨"call", "isClosed", [], []⟩,
-    ⟨"ifBegin", "w.isClosed()", [], []⟩,
+    ⟨"ifBegin", "%1.isClosed()", [], []⟩,
     ⟨"ret", "nil", [], []⟩,
     ⟨"ifEnd", "", [], []⟩,
     ⟨"lock", "mu", [], []⟩,
     ⟨"deferUnlock", "mu", [], ["mu"]⟩,
     ⟨"call", "len", [], ["mu"]⟩,
     ⟨"table", "watches.path", [], ["mu"]⟩,
-    ⟨"loopBegin", "range w.watches.path", [], ["mu"]⟩,
+    ⟨"loopBegin", "range %1.watches.path", [], ["mu"]⟩,
     ⟨"loopEnd", "", [], ["mu"]⟩,
-    ⟨"ret", "entries", [], ["mu"]⟩
+    ⟨"ret", "%2", [], ["mu"]⟩
 ]
 
 def fn_inotify_handleEvent : List SkOp := [
     ⟨"lock", "mu", [], []⟩,
     ⟨"deferUnlock", "mu", [], ["mu"]⟩,
     ⟨"call", "byWd", [], ["mu"]⟩,
-    ⟨"ifBegin", "watch == nil", [], ["mu"]⟩,
+    ⟨"ifBegin", "%1 == nil", [], ["mu"]⟩,
     ⟨"ret", "Event{}, true", [], ["mu"]⟩,
     ⟨"ifEnd", "", [], ["mu"]⟩,
-    ⟨"ifBegin", "nameLen > 0", [], ["mu"]⟩,
+    ⟨"ifBegin", "%2 > 0", [], ["mu"]⟩,
     ⟨"ifEnd", "", [], ["mu"]⟩,
     ⟨"ifBegin", "debug", [], ["mu"]⟩,
     ⟨"ifEnd", "", [], ["mu"]⟩,
-    ⟨"ifBegin", "inEvent.Mask&unix.IN_IGNORED != 0 || inEvent.Mask&unix.IN_UNMOUNT != 0", [], ["mu"]⟩,
+    ⟨"ifBegin", "%3.Mask&unix.IN_IGNORED != 0 || %3.Mask&unix.IN_UNMOUNT != 0", [], ["mu"]⟩,
     ⟨"call", "remove", [], ["mu"]⟩,
     ⟨"ret", "Event{}, true", [], ["mu"]⟩,
     ⟨"ifEnd", "", [], ["mu"]⟩,
-    ⟨"ifBegin", "inEvent.Mask&unix.IN_DELETE_SELF == unix.IN_DELETE_SELF", [], ["mu"]⟩,
+    ⟨"ifBegin", "%3.Mask&unix.IN_DELETE_SELF == unix.IN_DELETE_SELF", [], ["mu"]⟩,
     ⟨"call", "remove", [], ["mu"]⟩,
     ⟨"ifEnd", "", [], ["mu"]⟩,
-    ⟨"ifBegin", "inEvent.Mask&unix.IN_MOVE_SELF == unix.IN_MOVE_SELF", [], ["mu"]⟩,
-    ⟨"ifBegin", "watch.recurse", [], ["mu"]⟩,
+    ⟨"ifBegin", "%3.Mask&unix.IN_MOVE_SELF == unix.IN_MOVE_SELF", [], ["mu"]⟩,
+    ⟨"ifBegin", "%1.recurse", [], ["mu"]⟩,
     ⟨"ret", "Event{}, true", [], ["mu"]⟩,
     ⟨"ifEnd", "", [], ["mu"]⟩,
     ⟨"call", "remove", [], ["mu"]⟩,
-    ⟨"ifBegin", "err != nil && !errors.Is(err, ErrNonExistentWatch) && !errors.Is(err, unix.EINVAL)", [], ["mu"]⟩,
+    ⟨"ifBegin", "%4 != nil && !errors.Is(%4, ErrNonExistentWatch) && !errors.Is(%4, unix.EINVAL)", [], ["mu"]⟩,
     ⟨"call", "sendError", [], ["mu"]⟩,
-    ⟨"ifBegin", "!w.sendError(err)", [], ["mu"]⟩,
+    ⟨"ifBegin", "!%5.sendError(%4)", [], ["mu"]⟩,
     ⟨"ret", "Event{}, false", [], ["mu"]⟩,
     ⟨"ifEnd", "", [], ["mu"]⟩,
     ⟨"ifEnd", "", [], ["mu"]⟩,
     ⟨"ifEnd", "", [], ["mu"]⟩,
-    ⟨"ifBegin", "inEvent.Mask&unix.IN_DELETE_SELF != 0", [], ["mu"]⟩,
+    ⟨"ifBegin", "%3.Mask&unix.IN_DELETE_SELF != 0", [], ["mu"]⟩,
     ⟨"table", "watches.path", [], ["mu"]⟩,
-    ⟨"ifBegin", "ok", [], ["mu"]⟩,
+    ⟨"ifBegin", "%6", [], ["mu"]⟩,
     ⟨"ret", "Event{}, true", [], ["mu"]⟩,
     ⟨"ifEnd", "", [], ["mu"]⟩,
     ⟨"ifEnd", "", [], ["mu"]⟩,
     ⟨"call", "newEvent", [], ["mu"]⟩,
-    ⟨"ifBegin", "watch.recurse", [], ["mu"]⟩,
+    ⟨"ifBegin", "%1.recurse", [], ["mu"]⟩,
     ⟨"call", "Has", [], ["mu"]⟩,
-    ⟨"ifBegin", "isDir && ev.Has(Create)", [], ["mu"]⟩,
+    ⟨"ifBegin", "%7 && %8.Has(Create)", [], ["mu"]⟩,
     ⟨"call", "register", [], ["mu"]⟩,
     ⟨"call", "sendError", [], ["mu"]⟩,
-    ⟨"ifBegin", "!w.sendError(err)", [], ["mu"]⟩,
+    ⟨"ifBegin", "!%5.sendError(%9)", [], ["mu"]⟩,
     ⟨"ret", "Event{}, false", [], ["mu"]⟩,
     ⟨"ifEnd", "", [], ["mu"]⟩,
-    ⟨"ifBegin", "ev.renamedFrom != \"\"", [], ["mu"]⟩,
+    ⟨"ifBegin", "%8.renamedFrom != \"\"", [], ["mu"]⟩,
     ⟨"table", "watches.wd", [], ["mu"]⟩,
-    ⟨"loopBegin", "range w.watches.wd", [], ["mu"]⟩,
-    ⟨"ifBegin", "ww.path == ev.renamedFrom || strings.HasPrefix(ww.path, ev.renamedFrom+\"/\")", [], ["mu"]⟩,
+    ⟨"loopBegin", "range %5.watches.wd", [], ["mu"]⟩,
+    ⟨"ifBegin", "%10.path == %8.renamedFrom || strings.HasPrefix(%10.path, %8.renamedFrom+\"/\")", [], ["mu"]⟩,
     ⟨"table", "watches.path", [], ["mu"]⟩,
     ⟨"table", "watches.path", [], ["mu"]⟩,
     ⟨"ifEnd", "", [], ["mu"]⟩,
@@ -211,53 +211,53 @@ def fn_inotify_handleEvent : List SkOp := [
     ⟨"ifEnd", "", [], ["mu"]⟩,
     ⟨"ifEnd", "", [], ["mu"]⟩,
     ⟨"ifEnd", "", [], ["mu"]⟩,
-    ⟨"ret", "ev, true", [], ["mu"]⟩
+    ⟨"ret", "%8, true", [], ["mu"]⟩
 ]
 
 def fn_inotify_isRecursive : List SkOp := [
     ⟨"call", "byPath", [], []⟩,
-    ⟨"ifBegin", "ww == nil", [], []⟩,
+    ⟨"ifBegin", "%1 == nil", [], []⟩,
     ⟨"call", "byPath", [], []⟩,
     ⟨"ifEnd", "", [], []⟩,
-    ⟨"ret", "ww != nil && ww.recurse", [], []⟩
+    ⟨"ret", "%1 != nil && %1.recurse", [], []⟩
 ]
 
 def fn_inotify_newEvent : List SkOp := [
-    ⟨"ifBegin", "mask&unix.IN_CREATE == unix.IN_CREATE || mask&unix.IN_MOVED_TO == unix.IN_MOVED_TO", [], []⟩,
+    ⟨"ifBegin", "%1&unix.IN_CREATE == unix.IN_CREATE || %1&unix.IN_MOVED_TO == unix.IN_MOVED_TO", [], []⟩,
     ⟨"ifEnd", "", [], []⟩,
-    ⟨"ifBegin", "mask&unix.IN_DELETE_SELF == unix.IN_DELETE_SELF || mask&unix.IN_DELETE == unix.IN_DELETE", [], []⟩,
+    ⟨"ifBegin", "%1&unix.IN_DELETE_SELF == unix.IN_DELETE_SELF || %1&unix.IN_DELETE == unix.IN_DELETE", [], []⟩,
     ⟨"ifEnd", "", [], []⟩,
-    ⟨"ifBegin", "mask&unix.IN_MODIFY == unix.IN_MODIFY", [], []⟩,
+    ⟨"ifBegin", "%1&unix.IN_MODIFY == unix.IN_MODIFY", [], []⟩,
     ⟨"ifEnd", "", [], []⟩,
-    ⟨"ifBegin", "mask&unix.IN_OPEN == unix.IN_OPEN", [], []⟩,
+    ⟨"ifBegin", "%1&unix.IN_OPEN == unix.IN_OPEN", [], []⟩,
     ⟨"ifEnd", "", [], []⟩,
-    ⟨"ifBegin", "mask&unix.IN_ACCESS == unix.IN_ACCESS", [], []⟩,
+    ⟨"ifBegin", "%1&unix.IN_ACCESS == unix.IN_ACCESS", [], []⟩,
     ⟨"ifEnd", "", [], []⟩,
-    ⟨"ifBegin", "mask&unix.IN_CLOSE_WRITE == unix.IN_CLOSE_WRITE", [], []⟩,
+    ⟨"ifBegin", "%1&unix.IN_CLOSE_WRITE == unix.IN_CLOSE_WRITE", [], []⟩,
     ⟨"ifEnd", "", [], []⟩,
-    ⟨"ifBegin", "mask&unix.IN_CLOSE_NOWRITE == unix.IN_CLOSE_NOWRITE", [], []⟩,
+    ⟨"ifBegin", "%1&unix.IN_CLOSE_NOWRITE == unix.IN_CLOSE_NOWRITE", [], []⟩,
     ⟨"ifEnd", "", [], []⟩,
-    ⟨"ifBegin", "mask&unix.IN_MOVE_SELF == unix.IN_MOVE_SELF || mask&unix.IN_MOVED_FROM == unix.IN_MOVED_FROM", [], []⟩,
+    ⟨"ifBegin", "%1&unix.IN_MOVE_SELF == unix.IN_MOVE_SELF || %1&unix.IN_MOVED_FROM == unix.IN_MOVED_FROM", [], []⟩,
     ⟨"ifEnd", "", [], []⟩,
-    ⟨"ifBegin", "mask&unix.IN_ATTRIB == unix.IN_ATTRIB", [], []⟩,
+    ⟨"ifBegin", "%1&unix.IN_ATTRIB == unix.IN_ATTRIB", [], []⟩,
     ⟨"ifEnd", "", [], []⟩,
-    ⟨"ifBegin", "cookie != 0", [], []⟩,
-    ⟨"ifBegin", "mask&unix.IN_MOVED_FROM == unix.IN_MOVED_FROM", [], []⟩,
+    ⟨"ifBegin", "%2 != 0", [], []⟩,
+    ⟨"ifBegin", "%1&unix.IN_MOVED_FROM == unix.IN_MOVED_FROM", [], []⟩,
     ⟨"lock", "cookiesMu", [], []⟩,
     ⟨"table", "cookieIndex", [], ["cookiesMu"]⟩,
     ⟨"table", "cookies", [], ["cookiesMu"]⟩,
     ⟨"table", "cookieIndex", [], ["cookiesMu"]⟩,
     ⟨"table", "cookieIndex", [], ["cookiesMu"]⟩,
-    ⟨"ifBegin", "w.cookieIndex > 9", [], ["cookiesMu"]⟩,
+    ⟨"ifBegin", "%3.cookieIndex > 9", [], ["cookiesMu"]⟩,
     ⟨"table", "cookieIndex", [], ["cookiesMu"]⟩,
     ⟨"ifEnd", "", [], ["cookiesMu"]⟩,
     ⟨"unlock", "cookiesMu", [], ["cookiesMu"]⟩,
     ⟨"elseBegin", "", [], []⟩,
-    ⟨"ifBegin", "mask&unix.IN_MOVED_TO == unix.IN_MOVED_TO", [], []⟩,
+    ⟨"ifBegin", "%1&unix.IN_MOVED_TO == unix.IN_MOVED_TO", [], []⟩,
     ⟨"lock", "cookiesMu", [], []⟩,
     ⟨"table", "cookies", [], ["cookiesMu"]⟩,
-    ⟨"loopBegin", "range w.cookies", [], ["cookiesMu"]⟩,
-    ⟨"ifBegin", "c.cookie == cookie", [], ["cookiesMu"]⟩,
+    ⟨"loopBegin", "range %3.cookies", [], ["cookiesMu"]⟩,
+    ⟨"ifBegin", "%4.cookie == %2", [], ["cookiesMu"]⟩,
     ⟨"branch", "break", [], ["cookiesMu"]⟩,
     ⟨"ifEnd", "", [], ["cookiesMu"]⟩,
     ⟨"loopEnd", "", [], ["cookiesMu"]⟩,
@@ -265,7 +265,7 @@ def fn_inotify_newEvent : List SkOp := [
     ⟨"ifEnd", "", [], []⟩,
     ⟨"ifEnd", "", [], []⟩,
     ⟨"ifEnd", "", [], []⟩,
-    ⟨"ret", "e", [], []⟩
+    ⟨"ret", "%5", [], []⟩
 ]
 
 def fn_inotify_readEvents : List SkOp := [
@@ -276,42 +276,42 @@ def fn_inotify_readEvents : List SkOp := [
     ⟨"deferEnd", "", [], []⟩,
     ⟨"loopBegin", "", [], []⟩,
     ⟨"call", "isClosed", [], []⟩,
-    ⟨"ifBegin", "w.isClosed()", [], []⟩,
+    ⟨"ifBegin", "%1.isClosed()", [], []⟩,
     ⟨"ret", "", [], []⟩,
     ⟨"ifEnd", "", [], []⟩,
     ⟨"fileOp", "Read", [], []⟩,
-    ⟨"ifBegin", "err != nil", [], []⟩,
-    ⟨"ifBegin", "errors.Is(err, os.ErrClosed)", [], []⟩,
+    ⟨"ifBegin", "%2 != nil", [], []⟩,
+    ⟨"ifBegin", "errors.Is(%2, os.ErrClosed)", [], []⟩,
     ⟨"ret", "", [], []⟩,
     ⟨"ifEnd", "", [], []⟩,
     ⟨"call", "sendError", [], []⟩,
-    ⟨"ifBegin", "!w.sendError(err)", [], []⟩,
-    ⟨"ret", "", [], []⟩,
-    ⟨"ifEnd", "", [], []⟩,
-    ⟨"branch", "continue", [], []⟩,
-    ⟨"ifEnd", "", [], []⟩,
-    ⟨"ifBegin", "n < unix.SizeofInotifyEvent", [], []⟩,
-    ⟨"ifBegin", "n == 0", [], []⟩,
-    ⟨"ifEnd", "", [], []⟩,
-    ⟨"call", "sendError", [], []⟩,
-    ⟨"ifBegin", "!w.sendError(err)", [], []⟩,
+    ⟨"ifBegin", "!%1.sendError(%2)", [], []⟩,
     ⟨"ret", "", [], []⟩,
     ⟨"ifEnd", "", [], []⟩,
     ⟨"branch", "continue", [], []⟩,
     ⟨"ifEnd", "", [], []⟩,
-    ⟨"loopBegin", "offset <= uint32(n-unix.SizeofInotifyEvent)", [], []⟩,
-    ⟨"ifBegin", "inEvent.Mask&unix.IN_Q_OVERFLOW != 0", [], []⟩,
+    ⟨"ifBegin", "%3 < unix.SizeofInotifyEvent", [], []⟩,
+    ⟨"ifBegin", "%3 == 0", [], []⟩,
+    ⟨"ifEnd", "", [], []⟩,
     ⟨"call", "sendError", [], []⟩,
-    ⟨"ifBegin", "!w.sendError(ErrEventOverflow)", [], []⟩,
+    ⟨"ifBegin", "!%1.sendError(%4)", [], []⟩,
+    ⟨"ret", "", [], []⟩,
+    ⟨"ifEnd", "", [], []⟩,
+    ⟨"branch", "continue", [], []⟩,
+    ⟨"ifEnd", "", [], []⟩,
+    ⟨"loopBegin", "%5 <= uint32(%3-unix.SizeofInotifyEvent)", [], []⟩,
+    ⟨"ifBegin", "%6.Mask&unix.IN_Q_OVERFLOW != 0", [], []⟩,
+    ⟨"call", "sendError", [], []⟩,
+    ⟨"ifBegin", "!%1.sendError(ErrEventOverflow)", [], []⟩,
     ⟨"ret", "", [], []⟩,
     ⟨"ifEnd", "", [], []⟩,
     ⟨"ifEnd", "", [], []⟩,
     ⟨"call", "handleEvent", [], []⟩,
-    ⟨"ifBegin", "!ok", [], []⟩,
+    ⟨"ifBegin", "!%7", [], []⟩,
     ⟨"ret", "", [], []⟩,
     ⟨"ifEnd", "", [], []⟩,
     ⟨"call", "sendEvent", [], []⟩,
-    ⟨"ifBegin", "!w.sendEvent(ev)", [], []⟩,
+    ⟨"ifBegin", "!%1.sendEvent(%8)", [], []⟩,
     ⟨"ret", "", [], []⟩,
     ⟨"ifEnd", "", [], []⟩,
     ⟨"loopEnd", "", [], []⟩,
@@ -320,37 +320,37 @@ def fn_inotify_readEvents : List SkOp := [
 
 def fn_inotify_register : List SkOp := [
     ⟨"litBegin", "", [], []⟩,
-    ⟨"ifBegin", "existing != nil", [], []⟩,
+    ⟨"ifBegin", "%1 != nil", [], []⟩,
     ⟨"ifEnd", "", [], []⟩,
     ⟨"sys", "InotifyAddWatch", ["w.fd"], []⟩,
-    ⟨"ifBegin", "wd == -1", [], []⟩,
-    ⟨"ret", "nil, err", [], []⟩,
+    ⟨"ifBegin", "%2 == -1", [], []⟩,
+    ⟨"ret", "nil, %3", [], []⟩,
     ⟨"ifEnd", "", [], []⟩,
-    ⟨"ifBegin", "existing != nil && existing.wd != uint32(wd)", [], []⟩,
+    ⟨"ifBegin", "%1 != nil && %1.wd != uint32(%2)", [], []⟩,
     ⟨"sys", "InotifyRmWatch", ["w.fd"], []⟩,
     ⟨"ifEnd", "", [], []⟩,
     ⟨"table", "watches.wd", [], []⟩,
-    ⟨"ifBegin", "ok", [], []⟩,
-    ⟨"ret", "e, nil", [], []⟩,
+    ⟨"ifBegin", "%4", [], []⟩,
+    ⟨"ret", "%5, nil", [], []⟩,
     ⟨"ifEnd", "", [], []⟩,
-    ⟨"ifBegin", "existing == nil", [], []⟩,
-    ⟨"ret", "&watch{ wd: uint32(wd), path: path, flags: flags, recurse: recurse, }, nil", [], []⟩,
+    ⟨"ifBegin", "%1 == nil", [], []⟩,
+    ⟨"ret", "&watch{ wd: uint32(%2), path: %6, flags: %7, recurse: %8, }, nil", [], []⟩,
     ⟨"ifEnd", "", [], []⟩,
-    ⟨"ret", "existing, nil", [], []⟩,
+    ⟨"ret", "%1, nil", [], []⟩,
     ⟨"litEnd", "", [], []⟩,
     ⟨"call", "updatePath", [], []⟩,
-    ⟨"ret", "w.watches.updatePath(path, func(existing *watch) (*watch, error) { if existing != nil { flags |= existing.flags | unix.IN_MASK_ADD } wd, err := unix.InotifyAddWatch(w.fd, path, flags) if wd == -1 { return nil, err } if existing != nil && existing.wd != uint32(wd) { unix.InotifyRmWatch(w.fd, existing.wd) } if e, ok := w.watches.wd[uint32(wd)]; ok { return e, nil } if existing == nil { return &watch{ wd: uint32(wd), path: path, flags: flags, recurse: recurse, }, nil } existing.wd = uint32(wd) existing.flags = flags return existing, nil })", [], []⟩
+    ⟨"ret", "%9.watches.updatePath(%6, func(%1 *watch) (*watch, error) { if %1 != nil { %7 |= %1.flags | unix.IN_MASK_ADD } %2, %3 := unix.InotifyAddWatch(%9.fd, %6, %7) if %2 == -1 { return nil, %3 } if %1 != nil && %1.wd != uint32(%2) { unix.InotifyRmWatch(%9.fd, %1.wd) } if %5, %4 := %9.watches.wd[uint32(%2)]; %4 { return %5, nil } if %1 == nil { return &watch{ wd: uint32(%2), path: %6, flags: %7, recurse: %8, }, nil } %1.wd = uint32(%2) %1.flags = %7 return %1, nil })", [], []⟩
 ]
 
 def fn_inotify_remove : List SkOp := [
     ⟨"call", "removePath", [], []⟩,
-    ⟨"ifBegin", "err != nil", [], []⟩,
-    ⟨"ret", "err", [], []⟩,
+    ⟨"ifBegin", "%1 != nil", [], []⟩,
+    ⟨"ret", "%1", [], []⟩,
     ⟨"ifEnd", "", [], []⟩,
-    ⟨"loopBegin", "range wds", [], []⟩,
+    ⟨"loopBegin", "range %2", [], []⟩,
     ⟨"sys", "InotifyRmWatch", ["w.fd"], []⟩,
-    ⟨"ifBegin", "err != nil", [], []⟩,
-    ⟨"ret", "err", [], []⟩,
+    ⟨"ifBegin", "%3 != nil", [], []⟩,
+    ⟨"ret", "%3", [], []⟩,
     ⟨"ifEnd", "", [], []⟩,
     ⟨"loopEnd", "", [], []⟩,
     ⟨"ret", "nil", [], []⟩
@@ -360,7 +360,7 @@ def fn_inotify_state : List SkOp := [
     ⟨"lock", "mu", [], []⟩,
     ⟨"deferUnlock", "mu", [], ["mu"]⟩,
     ⟨"table", "watches.wd", [], ["mu"]⟩,
-    ⟨"loopBegin", "range w.watches.wd", [], ["mu"]⟩,
+    ⟨"loopBegin", "range %1.watches.wd", [], ["mu"]⟩,
     ⟨"loopEnd", "", [], ["mu"]⟩
 ]
 
@@ -370,20 +370,20 @@ def fn_inotify_xSupports : List SkOp := [
 
 def fn_newBackend : List SkOp := [
     ⟨"sys", "InotifyInit1", ["unix.IN_CLOEXEC | unix.IN_NONBLOCK"], []⟩,
-    ⟨"ifBegin", "fd == -1", [], []⟩,
-    ⟨"ret", "nil, errno", [], []⟩,
+    ⟨"ifBegin", "%1 == -1", [], []⟩,
+    ⟨"ret", "nil, %2", [], []⟩,
     ⟨"ifEnd", "", [], []⟩,
     ⟨"call", "newShared", [], []⟩,
     ⟨"fileOp", "NewFile", [], []⟩,
     ⟨"call", "newWatches", [], []⟩,
     ⟨"makeChan", "struct{}", ["0"], []⟩,
     ⟨"go", "readEvents", [], []⟩,
-    ⟨"ret", "w, nil", [], []⟩
+    ⟨"ret", "%3, nil", [], []⟩
 ]
 
 def fn_newShared : List SkOp := [
     ⟨"makeChan", "struct{}", ["0"], []⟩,
-    ⟨"ret", "&shared{ Events: ev, Errors: errs, done: make(chan struct{}), }", [], []⟩
+    ⟨"ret", "&shared{ Events: %1, Errors: %2, done: make(chan struct{}), }", [], []⟩
 ]
 
 def fn_newWatches : List SkOp := [
@@ -394,7 +394,7 @@ def fn_shared_close : List SkOp := [
     ⟨"lock", "mu", [], []⟩,
     ⟨"deferUnlock", "mu", [], ["mu"]⟩,
     ⟨"call", "isClosed", [], ["mu"]⟩,
-    ⟨"ifBegin", "w.isClosed()", [], ["mu"]⟩,
+    ⟨"ifBegin", "%1.isClosed()", [], ["mu"]⟩,
     ⟨"ret", "true", [], ["mu"]⟩,
     ⟨"ifEnd", "", [], ["mu"]⟩,
     ⟨"close", "done", [], ["mu"]⟩,
@@ -412,7 +412,7 @@ def fn_shared_isClosed : List SkOp := [
 ]
 
 def fn_shared_sendError : List SkOp := [
-    ⟨"ifBegin", "err == nil", [], []⟩,
+    ⟨"ifBegin", "%1 == nil", [], []⟩,
     ⟨"ret", "true", [], []⟩,
     ⟨"ifEnd", "", [], []⟩,
     ⟨"select", "recv:done|send:Errors", [], []⟩,
@@ -425,7 +425,7 @@ def fn_shared_sendError : List SkOp := [
 ]
 
 def fn_shared_sendEvent : List SkOp := [
-    ⟨"ifBegin", "e.Op == 0", [], []⟩,
+    ⟨"ifBegin", "%1.Op == 0", [], []⟩,
     ⟨"ret", "true", [], []⟩,
     ⟨"ifEnd", "", [], []⟩,
     ⟨"select", "recv:done|send:Events", [], []⟩,
@@ -445,17 +445,17 @@ def fn_watches_add : List SkOp := [
 def fn_watches_byPath : List SkOp := [
     ⟨"table", "watches.path", [], []⟩,
     ⟨"table", "watches.wd", [], []⟩,
-    ⟨"ret", "w.wd[w.path[path]]", [], []⟩
+    ⟨"ret", "%1.wd[%1.path[%2]]", [], []⟩
 ]
 
 def fn_watches_byWd : List SkOp := [
     ⟨"table", "watches.wd", [], []⟩,
-    ⟨"ret", "w.wd[wd]", [], []⟩
+    ⟨"ret", "%1.wd[%2]", [], []⟩
 ]
 
 def fn_watches_len : List SkOp := [
     ⟨"table", "watches.wd", [], []⟩,
-    ⟨"ret", "len(w.wd)", [], []⟩
+    ⟨"ret", "len(%1.wd)", [], []⟩
 ]
 
 def fn_watches_remove : List SkOp := [
@@ -466,43 +466,43 @@ def fn_watches_remove : List SkOp := [
 def fn_watches_removePath : List SkOp := [
     ⟨"call", "recursivePath", [], []⟩,
     ⟨"table", "watches.path", [], []⟩,
-    ⟨"ifBegin", "!ok", [], []⟩,
-    ⟨"ret", "nil, fmt.Errorf(\"%w: %s\", ErrNonExistentWatch, path)", [], []⟩,
+    ⟨"ifBegin", "!%1", [], []⟩,
+    ⟨"ret", "nil, fmt.Errorf(\"%w: %s\", ErrNonExistentWatch, %2)", [], []⟩,
     ⟨"ifEnd", "", [], []⟩,
     ⟨"table", "watches.wd", [], []⟩,
-    ⟨"ifBegin", "recurse && !watch.recurse", [], []⟩,
-    ⟨"ret", "nil, fmt.Errorf(\"can't use /... with non-recursive watch %q\", path)", [], []⟩,
+    ⟨"ifBegin", "%3 && !%4.recurse", [], []⟩,
+    ⟨"ret", "nil, fmt.Errorf(\"can't use /... with non-recursive watch %q\", %2)", [], []⟩,
     ⟨"ifEnd", "", [], []⟩,
     ⟨"table", "watches.path", [], []⟩,
     ⟨"table", "watches.wd", [], []⟩,
-    ⟨"ifBegin", "!watch.recurse", [], []⟩,
-    ⟨"ret", "[]uint32{wd}, nil", [], []⟩,
+    ⟨"ifBegin", "!%4.recurse", [], []⟩,
+    ⟨"ret", "[]uint32{%5}, nil", [], []⟩,
     ⟨"ifEnd", "", [], []⟩,
     ⟨"table", "watches.path", [], []⟩,
-    ⟨"loopBegin", "range w.path", [], []⟩,
-    ⟨"ifBegin", "strings.HasPrefix(p, path+\"/\")", [], []⟩,
+    ⟨"loopBegin", "range %6.path", [], []⟩,
+    ⟨"ifBegin", "strings.HasPrefix(%7, %2+\"/\")", [], []⟩,
     ⟨"table", "watches.path", [], []⟩,
     ⟨"table", "watches.wd", [], []⟩,
     ⟨"ifEnd", "", [], []⟩,
     ⟨"loopEnd", "", [], []⟩,
-    ⟨"ret", "wds, nil", [], []⟩
+    ⟨"ret", "%8, nil", [], []⟩
 ]
 
 def fn_watches_updatePath : List SkOp := [
     ⟨"table", "watches.path", [], []⟩,
-    ⟨"ifBegin", "ok", [], []⟩,
+    ⟨"ifBegin", "%1", [], []⟩,
     ⟨"table", "watches.wd", [], []⟩,
     ⟨"ifEnd", "", [], []⟩,
     ⟨"callVar", "f", [], []⟩,
-    ⟨"ifBegin", "err != nil", [], []⟩,
-    ⟨"ret", "err", [], []⟩,
+    ⟨"ifBegin", "%2 != nil", [], []⟩,
+    ⟨"ret", "%2", [], []⟩,
     ⟨"ifEnd", "", [], []⟩,
-    ⟨"ifBegin", "upd != nil", [], []⟩,
+    ⟨"ifBegin", "%3 != nil", [], []⟩,
     ⟨"table", "watches.wd", [], []⟩,
     ⟨"table", "watches.path", [], []⟩,
-    ⟨"ifBegin", "upd.wd != wd", [], []⟩,
+    ⟨"ifBegin", "%3.wd != %4", [], []⟩,
     ⟨"table", "watches.wd", [], []⟩,
-    ⟨"ifBegin", "ok && upd.path != path", [], []⟩,
+    ⟨"ifBegin", "%1 && %3.path != %5", [], []⟩,
     ⟨"table", "watches.path", [], []⟩,
     ⟨"ifEnd", "", [], []⟩,
     ⟨"ifEnd", "", [], []⟩,
@@ -510,29 +510,24 @@ def fn_watches_updatePath : List SkOp := [
     ⟨"ret", "nil", [], []⟩
 ]
 
+/-- (function, via, channel, mutexes held): a send can happen while a mutex is held -/
 def sendsWhileLocked : List (String × String × String × String) := [
   ("inotify.AddWith", "sendEvent", "Events", "mu"),
   ("inotify.handleEvent", "sendError", "Errors", "mu"),
   ("inotify.handleEvent", "sendError", "Errors", "mu")]
 
+/-- functions that touch the watch tables (directly or through callees) without holding mu themselves -/
 def needMuFromCaller : List String := ["inotify.AddWith$add", "inotify.isRecursive", "inotify.register", "inotify.remove", "watches.add", "watches.byPath", "watches.byWd", "watches.len", "watches.remove", "watches.removePath", "watches.updatePath"]
-
 def needCookiesMuFromCaller : List String := []
 
 def closers : List (String × String) := [("inotify.readEvents", "doneResp"), ("inotify.readEvents", "Errors"), ("inotify.readEvents", "Events"), ("shared.close", "done")]
-
 def senders : List (String × String) := [("shared.sendError", "Errors"), ("shared.sendEvent", "Events")]
-
 def goStmts : List (String × String) := [("newBackend", "readEvents")]
-
 def syscalls : List (String × String × String) := [("inotify.register", "InotifyAddWatch", "w.fd"), ("inotify.register", "InotifyRmWatch", "w.fd"), ("inotify.remove", "InotifyRmWatch", "w.fd"), ("newBackend", "InotifyInit1", "unix.IN_CLOEXEC | unix.IN_NONBLOCK")]
-
 def chanCaps : List (String × String × String) := [("NewBufferedWatcher", "Event", "sz"), ("NewBufferedWatcher", "error", "0"), ("NewWatcher", "Event", "defaultBufferSize"), ("NewWatcher", "error", "0"), ("newBackend", "struct{}", "0"), ("newShared", "struct{}", "0")]
 
 def pkgVarsWritten : List (String × String) := []
-
 def pkgVars : List String := ["ErrClosed : error", "ErrEventOverflow : error", "ErrNonExistentWatch : error", "debug : bool", "defaultBufferSize : int", "defaultOpts : withOpts", "enableRecurse : bool", "xErrUnsupported : error"]
-
 def withCreateCallers : List String := []
 
 def functions : List (String × List SkOp) := [
